@@ -57,6 +57,18 @@ Theorem C20_strings_exact : forall (widen : N -> N) pa c ua fs ops out k s,
 Proof. exact strings_exact. Qed.
 Print Assumptions C20_strings_exact.
 
+(* Two hops: a span forwarded to its owner and forwarded again by the owner (after its collector's
+   operations) still carries the client's fields. *)
+Theorem C20_two_hops_preserve_fields : forall (widen : N -> N) pa c ua fs out1 c2 ua2 ops2 out2 k,
+  NoDup (skeys fs) ->
+  forward widen pa c ua fs [] = Some out1 ->
+  forward widen PBatchMsgp c2 ua2 out1 ops2 = Some out2 ->
+  reserved k = false -> ~ In k (set_keys ops2) ->
+  option_map (canon widen) (slookup k out2) =
+  option_map (fun v => canon widen (path_spec pa v)) (slookup k fs).
+Proof. exact two_hops_preserve. Qed.
+Print Assumptions C20_two_hops_preserve_fields.
+
 (* "msgpack values keep their encoded type" is false on the msgpack /1/events path: a bin value
    leaves as str (the faithful model reproduces it; replayed on the Go code it is the known finding). *)
 Theorem C20_event_msgpack_bin_type_refuted :
